@@ -1,2 +1,75 @@
-(* Props_C11.v -- placeholder, theorems are added below as they are proved *)
-From LM Require Import Base.
+(* Props_C11.v -- property C11: ordered set (BST): set semantics, sorted
+   iteration, right destructor target.  ONLY statements closed by `exact`.
+   Every theorem is for an arbitrary comparator `cmp` that is consistent with a
+   total order on keys (contract: cmp_lt / cmp_eq); C11_default_comparator_ok
+   shows that the library's own comparator meets that contract for ALL pointer
+   values (no truncation), C11_driver_comparators_ok the same for the drivers'. *)
+From LM Require Import Base Bst BstProofs.
+From Coq Require Import Sorting.Sorted Permutation.
+
+Section Contract.
+  Variable cmp : N -> N -> Z.
+  Variable key : N -> Z.
+  Hypothesis cmp_lt : forall a b, (cmp a b < 0)%Z <-> (key a < key b)%Z.
+  Hypothesis cmp_eq : forall a b, cmp a b = 0%Z <-> key a = key b.
+
+  Theorem C11_invariant : forall dt ops, BInv key (final (b_step cmp) (b_init dt) ops).
+  Proof. exact (b_inv_reachable cmp key cmp_lt cmp_eq). Qed.
+
+  Theorem C11_set_semantics : forall s v,
+    BInv key s -> b_freed (bs_b s) = false -> v <> 0%N ->
+    let l := elems s in
+    (has_key key l v -> snd (b_step cmp s (BInsert v)) = [ERet (- cEEXIST)] /\ elems (fst (b_step cmp s (BInsert v))) = l) /\
+    (~ has_key key l v -> snd (b_step cmp s (BInsert v)) = [ERet 0] /\ elems (fst (b_step cmp s (BInsert v))) = l_insert key v l) /\
+    (forall x, In x l -> key x = key v -> snd (b_step cmp s (BFind v)) = [EPtr x]) /\
+    (~ has_key key l v -> snd (b_step cmp s (BFind v)) = [EPtr 0]) /\
+    (forall x, In x l -> key x = key v ->
+       snd (b_step cmp s (BRemove v)) = dtor_evs (b_dtor (bs_b s)) [x] ++ [ERet 0] /\
+       elems (fst (b_step cmp s (BRemove v))) = filter (fun y => negb (N.eqb y x)) l) /\
+    (~ has_key key l v -> l <> [] -> snd (b_step cmp s (BRemove v)) = [ERet (- cENOENT)] /\ elems (fst (b_step cmp s (BRemove v))) = l) /\
+    snd (b_step cmp s BLen) = [ERet (Z.of_nat (length l))].
+  Proof. exact (b_set_semantics cmp key cmp_lt cmp_eq). Qed.
+
+  Theorem C11_traversals : forall s, BInv key s -> b_freed (bs_b s) = false ->
+    snd (b_step cmp s (BTraverse 2 0 0)) = map EVisit (elems s) ++ [ERet 0] /\
+    StronglySorted (klt key) (elems s) /\ NoDup (elems s) /\
+    (exists t, elems s = inorder t /\
+       snd (b_step cmp s (BTraverse 0 0 0)) = map EVisit (preorder t) ++ [ERet 0] /\
+       snd (b_step cmp s (BTraverse 1 0 0)) = map EVisit (postorder t) ++ [ERet 0] /\
+       Permutation (preorder t) (inorder t) /\ Permutation (postorder t) (inorder t)).
+  Proof. exact (b_traversals cmp key). Qed.
+
+  Theorem C11_iterator_complete_with_removal : forall dt pre acts,
+    let s0 := final (b_step cmp) (b_init dt) pre in
+    b_freed (bs_b s0) = false -> elems s0 <> [] -> length acts = length (elems s0) ->
+    let r := run (b_step cmp) s0 (BItrNew :: bi_script acts) in
+    BInv key (fst r) /\
+    elems (fst r) = kept_of (elems s0) acts /\
+    bs_itr (fst r) = None /\
+    bvisits (tl (snd r)) = elems s0 /\
+    StronglySorted (klt key) (elems s0) /\
+    bdtors (tl (snd r)) = (if b_dtor (bs_b s0) then removed_of (elems s0) acts else []).
+  Proof. exact (b_iterate_all cmp key cmp_lt cmp_eq). Qed.
+End Contract.
+
+Print Assumptions C11_invariant.
+Print Assumptions C11_set_semantics.
+Print Assumptions C11_traversals.
+Print Assumptions C11_iterator_complete_with_removal.
+
+Theorem C11_default_comparator_ok : forall a b,
+  ((ptrcmp_model a b < 0)%Z <-> (Z.of_N a < Z.of_N b)%Z) /\ (ptrcmp_model a b = 0%Z <-> Z.of_N a = Z.of_N b).
+Proof. exact ptrcmp_ok. Qed.
+Print Assumptions C11_default_comparator_ok.
+
+Theorem C11_driver_comparators_ok : forall k, exists key, forall a b,
+  ((cmp_of k a b < 0)%Z <-> (key a < key b)%Z) /\ (cmp_of k a b = 0%Z <-> key a = key b).
+Proof. exact cmp_of_ok. Qed.
+Print Assumptions C11_driver_comparators_ok.
+
+Example C11_nonvacuous :
+  b_run 0 true [BInsert 50; BInsert 30; BInsert 70; BInsert 60; BInsert 80; BRemove 50; BTraverse 2 0 0;
+                BItrNew; BItrGet; BItrRm; BItrNext; BItrGet]%N
+  = [[ERet 0]; [ERet 0]; [ERet 0]; [ERet 0]; [ERet 0]; [EDtor 50; ERet 0];
+     [EVisit 30; EVisit 60; EVisit 70; EVisit 80; ERet 0]; [EPtr 1]; [EPtr 30]; [EDtor 30; ERet 0]; [ERet 0]; [EPtr 60]]%N.
+Proof. vm_compute. reflexivity. Qed.
